@@ -541,9 +541,13 @@ def r17_5_response(rep, facts):
     def direct_names(bb):
         return [F.norm(blk["t"]["func"]["res"]["path"] if blk["t"]["func"].get("res") else blk["t"]["func"].get("path", ""))
                 for blk in bb.blocks if blk["t"]["k"] == "call" and "func" in blk["t"]]
-    if "protocol::nv::write" not in direct_names(b):
+    if not any(n_ in direct_names(b) for n_ in ("protocol::nv::write", "protocol::RecordHeader::new", "protocol::RecordHeader::set_lengths",
+                                                "protocol::RecordHeader::padding_bytes", "protocol::RecordHeader::to_bytes")):
         # a thin (e.g. generic-to-dyn) wrapper around a helper that is new relative to the pinned tree: the rules apply to where the work is done
-        cands = [cb for nm_ in direct_names(b) if facts.is_new_helper(nm_) for cb in facts.by_npath.get(nm_, []) if "protocol::nv::write" in direct_names(cb)]
+        import dispatch as _d0
+        wanted = {"protocol::nv::write", "protocol::RecordHeader::new", "protocol::RecordHeader::set_lengths", "protocol::RecordHeader::padding_bytes", "protocol::RecordHeader::to_bytes"}
+        cands = [cb for nm_ in direct_names(b) if facts.is_new_helper(nm_) for cb in facts.by_npath.get(nm_, [])
+                 if wanted <= (set(direct_names(cb)) | set(_d0.effective_calls(facts, cb))) and "protocol::nv::write" in direct_names(cb)]
         if len(cands) == 1:
             b = cands[0]
     g = ieg.IEG(facts, b, inline_filter=lambda x: False)
